@@ -557,7 +557,8 @@ fn build_ops(quick: bool) -> (Vec<Op>, Vec<String>) {
             // edit of an already-signed asset: the parent carries a manifest
             let signed_target = find(&target.name, h).unwrap();
             let st = Asset { name: target.name.clone(), format: target.format, bytes: signed_target.bytes.clone() };
-            ops.push(sign_op(format!("sign|signed-{}|{}|edit-signed-parent", target.name, h), &st, h, plain.clone(), Some(BuilderIntent::Edit), false, None, vec![(sp.clone(), "componentOf")]));
+            ops.push(sign_op(format!("sign|signed-{}|{}|edit-signed-parent", target.name, h), &st, h, plain.clone(), Some(BuilderIntent::Edit), false, None, vec![]));
+            ops.push(sign_op(format!("sign|signed-{}|{}|edit-signed-parent+ingredient", target.name, h), &st, h, plain.clone(), Some(BuilderIntent::Edit), false, None, vec![(sp.clone(), "componentOf")]));
             // chain for reading
             if let Some((lvl1, _)) = plain_sign(&st, &plain, Some(BuilderIntent::Edit), &[(&sj, "componentOf")], false) {
                 let l1 = Asset { name: format!("lvl1-{}", target.name), format: target.format, bytes: lvl1 };
@@ -950,6 +951,13 @@ fn main() {
                 println!("replay violation: sig={sig} :: {what}");
             }
             bad += r.violations.len();
+            if let Some(want) = v["sig"].as_str() {
+                // verdict of a replay = "the recorded signature reproduces"
+                bad = r.violations.iter().filter(|x| vmon::evidence::sig_token(&x.0) == want).count();
+                if want.starts_with("progress|") {
+                    bad += check_events(&probe.events).iter().filter(|x| format!("progress|{}|{}", x.0, x.1) == want).count();
+                }
+            }
         }
         std::process::exit(if bad > 0 { 1 } else { 0 });
     }
